@@ -9,6 +9,7 @@ import GoSandbox.Model.ForkChecked
 import GoSandbox.Model.ForkFail
 import GoSandbox.Model.SyncParent
 import GoSandbox.Gen.ForkChild
+import GoSandbox.Gen.C17
 namespace GoSandbox.Props.C07
 open GoSandbox.Model.ForkChecked GoSandbox.Model.ForkFail GoSandbox.Model.ForkSkeleton GoSandbox.Model.ForkOpts
 open GoSandbox.Model.SyncParent
@@ -75,5 +76,12 @@ theorem C07_error_is_childs (c : Cfg) (idmapErr : Nat) (first second : Msg) (h :
 example : (skeleton faultOpts).length = 21 := by decide +kernel
 example : (syncWithChild ⟨false, true, false⟩ 0 0 ⟨8, ⟨0, 0, 0⟩⟩ true ⟨0, ⟨0, 0, 0⟩⟩) =
     (.otherError, [.closeP1, .callSyncFunc, .closeP0, .kill, .wait4]) := by decide
+
+/-- **the failed launch reaps its own child** (regenerated fact): both `wait4` calls of
+`handleChildFailed` name the pid of the child that was just killed — never "any child", which would collect
+some other child of the caller and leave this one behind (the hand model `SyncParent` waits for `pid`). -/
+theorem C07_gen_reaps_own_child :
+    (Gen.C17.waitSites.filter (fun s => s.2.1 == "handleChildFailed")).map (·.2.2) = ["pid", "pid"] := by
+  decide +kernel
 
 end GoSandbox.Props.C07
